@@ -10,7 +10,7 @@ from ..gen import trees as G
 
 ID = "C02"
 PROPS_FILE = "Props/C02.v"
-PROPS_EXTRA = ["Props/C02e2e.v"]   # glue: compiler output is wf, so C02/C04 apply end to end (Proofs/PipelineWf.v)
+PROPS_EXTRA = ["Props/C02e2e.v", "Props/C02iter.v"]   # glue: compiler output is wf, so C02/C04 apply end to end (Proofs/PipelineWf.v)
 GEN_DEPS: List[str] = []
 ALLOWED_AXIOMS: List[str] = []
 THEOREMS: Dict[str, str] = {
@@ -35,6 +35,7 @@ THEOREMS: Dict[str, str] = {
     "C02_example_wf": "example",
     "C02_example_table": "example",
     "C02e2e_parser_steps_nonempty": "full", "C02e2e_parser_blocks_steps_nonempty": "full", "C02e2e_compile_output_wf": "full", "C02e2e_compile_steps_nonempty": "full", "C02_compiled_trees_drawable": "full", "C02e2e_scale_keeps_skeleton": "full", "C02_compiled_scaled_trees_drawable": "full", "C02e2e_source_output_wf": "full", "C02_source_trees_drawable": "full", "C02e2e_example_hyps": "example", "C02e2e_example_skeletons": "example", "C02e2e_example_conclusion": "example", "C02e2e_example_drawable": "example", "C02e2e_hypothesis_needed": "example",
+    "C02iter_skeletons_kept": "full", "C02_compiled_iter_scaled_trees_drawable": "full", "C02_source_iter_scaled_trees_drawable": "full", "C02_source_iter_scaled_same_tables": "full", "C02iter_example": "example",
 }
 TRUSTED = [
     "Coq 8.16.1 kernel (coqc; vm_compute for the correspondence only)",
